@@ -390,19 +390,33 @@ package ucfg
 //@ ensures [idx_single] in != "" && idx >= 0 && opts.pathSep == "" ==> len(result.fields) == 2 && isFieldOf(result.fields[0], in, opts.maxIdx, opts.enableNumKeys)
 //@ ensures [idx_multi] in != "" && idx >= 0 && opts.pathSep != "" && !opts.escapePath ==> len(result.fields) == splitLen(in, opts.pathSep) + 1 && forall j int :: 0 <= j && j < len(result.fields) - 1 ==> isFieldOf(result.fields[j], splitAt(in, opts.pathSep, j), opts.maxIdx, opts.enableNumKeys && splitLen(in, opts.pathSep) <= 1)
 
+// fgOk / fgVal name the outcome of one step of a path walk (field.GetValue on a node) in the constant heap of a read
+//@ ghost func fgOk(f field, elem value) bool
+//@ ghost func fgVal(f field, elem value) value
 //@ func iface:field.GetValue :: self, opt, elem -> r, err
 //@ pure
+//@ ensures (err == nil) == fgOk(self, elem)
+//@ ensures err == nil ==> r == fgVal(self, elem)
 
 //@ func iface:field.String :: self -> r
 //@ pure
 
-//@ func (cfgPath).Has
+//@ func (cfgPath).Has :: p, cfg, opt -> r, err
 //@ props C12 C11
 //@ pure
 //@ requires cfg != nil
 //@ requires forall j int :: 0 <= j && j < len(p.fields) ==> p.fields[j] != nil
+//@ ensures [first_absent @C12] len(p.fields) >= 1 && fgOk(p.fields[0], subval(cfg)) && fgVal(p.fields[0], subval(cfg)) == nil ==> err == nil && !r
+//@ ensures [single @C12] len(p.fields) == 1 && fgOk(p.fields[0], subval(cfg)) ==> err == nil && r == (fgVal(p.fields[0], subval(cfg)) != nil)
+//@ ensures [second @C12] len(p.fields) == 2 && fgOk(p.fields[0], subval(cfg)) && fgVal(p.fields[0], subval(cfg)) != nil && fgOk(p.fields[1], fgVal(p.fields[0], subval(cfg))) ==> err == nil && r == (fgVal(p.fields[1], fgVal(p.fields[0], subval(cfg))) != nil)
+//@ loop 1 invariant len(fields) <= len(p.fields) && base(fields) == base(p.fields)
+//@ loop 1 invariant forall j int :: 0 <= j && j < len(fields) ==> fields[j] == p.fields[len(p.fields) - len(fields) + j]
 //@ loop 1 invariant forall j int :: 0 <= j && j < len(fields) ==> fields[j] != nil
 //@ loop 1 invariant cur != nil
+//@ loop 1 invariant len(fields) == len(p.fields) ==> cur == subval(cfg)
+//@ loop 1 invariant len(p.fields) >= 1 && len(fields) < len(p.fields) ==> fgOk(p.fields[0], subval(cfg)) && fgVal(p.fields[0], subval(cfg)) != nil
+//@ loop 1 invariant len(p.fields) >= 1 && len(fields) == len(p.fields) - 1 ==> fgOk(p.fields[0], subval(cfg)) && cur == fgVal(p.fields[0], subval(cfg))
+//@ loop 1 invariant len(p.fields) >= 2 && len(fields) == len(p.fields) - 2 ==> fgOk(p.fields[0], subval(cfg)) && fgVal(p.fields[0], subval(cfg)) != nil && fgOk(p.fields[1], fgVal(p.fields[0], subval(cfg))) && cur == fgVal(p.fields[1], fgVal(p.fields[0], subval(cfg)))
 //@ loop 1 decreases len(fields)
 
 //@ func (cfgPath).GetValue :: p, cfg, opt -> r, err
@@ -418,7 +432,13 @@ package ucfg
 //@ loop 1 invariant cur != nil
 //@ loop 1 decreases len(fields)
 
+// SetContext as the code has it: a primitive takes the context; a sub-config takes it only while it has no
+// parent yet (an attached node is left alone - the value receiver assigns to a copy).
 //@ iface value.SetContext :: self, ctx
+//@ modifies obj(self)
+//@ ensures typeof(self) != cfgSub ==> ctxof(self) == ctx
+//@ ensures typeof(self) == cfgSub && old(ctxof(self).parent) == nil ==> ctxof(self) == ctx
+//@ ensures typeof(self) == cfgSub && old(ctxof(self).parent) != nil ==> ctxof(self) == old(ctxof(self))
 
 //@ func raiseIndexOutOfBounds
 //@ trusted
@@ -575,6 +595,7 @@ package ucfg
 //@ props C03 C14
 //@ tagged-only C14
 //@ ensures [names_setting @C14] err != nil ==> about(err) == val
+//@ ensures [has_reason @C14] err != nil ==> reasonOf(err) != nil
 //@ mode bv
 //@ requires val != nil && t != nil
 //@ requires tbits(t) == 8 || tbits(t) == 16 || tbits(t) == 32 || tbits(t) == 64
@@ -587,6 +608,7 @@ package ucfg
 //@ props C03 C14
 //@ tagged-only C14
 //@ ensures [names_setting @C14] err != nil ==> about(err) == val
+//@ ensures [has_reason @C14] err != nil ==> reasonOf(err) != nil
 //@ mode bv
 //@ requires val != nil && t != nil
 //@ requires tbits(t) == 8 || tbits(t) == 16 || tbits(t) == 32 || tbits(t) == 64
@@ -599,6 +621,7 @@ package ucfg
 //@ props C03 C14
 //@ tagged-only C14
 //@ ensures [names_setting @C14] err != nil ==> about(err) == val
+//@ ensures [has_reason @C14] err != nil ==> reasonOf(err) != nil
 //@ mode bv
 //@ requires val != nil && t != nil
 //@ ensures [ok] err == nil ==> toFloatOk(val) && !rvOverflowFloat(t, toFloatVal(val)) && rvType(result) == t && same(rvFloat(result), toFloatVal(val))
@@ -609,6 +632,7 @@ package ucfg
 //@ props C03 C14
 //@ tagged-only C14
 //@ ensures [names_setting @C14] err != nil ==> about(err) == val
+//@ ensures [has_reason @C14] err != nil ==> reasonOf(err) != nil
 //@ mode bv
 //@ requires val != nil && t != nil
 //@ ensures [ok] err == nil ==> toBoolOk(val) && rvType(result) == t && rvBool(result) == toBoolVal(val)
@@ -834,7 +858,7 @@ package ucfg
 //@ pred arrOK(to *Config, from *Config) := to != nil && to.fields != nil && from != nil && from.fields != nil && base(from.fields.a) != base(to.fields.a) && len(to.fields.a) + len(from.fields.a) < 9223372036854775807 && inTree(to, to.fields) && inTree(to, base(to.fields.a)) && (forall j int :: 0 <= j && j < len(from.fields.a) ==> from.fields.a[j] != nil) && (forall j int :: 0 <= j && j < len(to.fields.a) ==> to.fields.a[j] != nil) && (forall j int :: 0 <= j && j < len(to.fields.a) ==> !inTree(cfgEval(to.fields.a[j]), to) && !inTree(cfgEval(to.fields.a[j]), to.fields) && !inTree(cfgEval(to.fields.a[j]), base(to.fields.a)) && !inTree(cfgEval(to.fields.a[j]), from) && !inTree(cfgEval(to.fields.a[j]), from.fields) && !inTree(cfgEval(to.fields.a[j]), base(from.fields.a))) && (forall j int :: 0 <= j && j < len(to.fields.a) ==> subtree(cfgEval(to.fields.a[j]), to))
 
 //@ func mergeConfigArr
-//@ props C01
+//@ props C01 C16
 //@ requires opts != nil && arrOK(to, from)
 //@ requires !inTree(to, opts) && !inTree(to, from) && !inTree(to, from.fields) && !inTree(to, base(from.fields.a))
 //@ modifies tree(to)
@@ -874,14 +898,14 @@ package ucfg
 //@ ensures [A_only] result == nil && old(len(from.fields.d)) != 0 && old(opts.configValueHandling) != cfgReplaceValue ==> forall k string :: old(has(to.fields.d, k)) && !old(has(from.fields.d, k)) ==> to.fields.d[k] == old(to.fields.d[k])
 //@ ensures [rollback] result != nil && old(opts.configValueHandling) == cfgReplaceValue ==> to.fields.d == old(to.fields.d)
 //@ ensures [arr] to.fields == old(to.fields) && to.fields.a == old(to.fields.a)
-//@ loop 1 invariant to == entry(to) && to.fields == old(to.fields) && from.fields == old(from.fields) && from.fields.d == dict && dict != nil && to.fields.a == old(to.fields.a) && !ok
-//@ loop 1 invariant forall k string :: has(dict, k) == old(has(from.fields.d, k)) && (has(dict, k) ==> dict[k] == old(from.fields.d[k]))
+//@ loop 1 invariant to == entry(to) && to.fields == old(to.fields) && from.fields == old(from.fields) && from.fields.d == old(from.fields.d) && from.fields.d != nil && to.fields.a == old(to.fields.a) && !ok
+//@ loop 1 invariant forall k string :: has(from.fields.d, k) == old(has(from.fields.d, k)) && (has(from.fields.d, k) ==> from.fields.d[k] == old(from.fields.d[k]))
 //@ loop 1 invariant old(opts.configValueHandling) == cfgReplaceValue ==> to.fields.d == nil || fresh(to.fields.d)
 //@ loop 1 invariant old(opts.configValueHandling) != cfgReplaceValue ==> (old(to.fields.d) != nil ==> to.fields.d == old(to.fields.d)) && (old(to.fields.d) == nil ==> to.fields.d == nil || fresh(to.fields.d))
 //@ loop 1 invariant forall k string :: has(to.fields.d, k) == ((old(opts.configValueHandling) != cfgReplaceValue && old(has(to.fields.d, k))) || visited(k))
-//@ loop 1 invariant forall k string :: visited(k) ==> has(dict, k)
-//@ loop 1 invariant forall k string :: visited(k) && (old(opts.configValueHandling) == cfgReplaceValue || !old(has(to.fields.d, k))) ==> copyOf(to.fields.d[k], mvSpec(nilv(), dict[k])) && fresh(to.fields.d[k]) && cctx(to.fields.d[k]).parent == subval(to) && cctx(to.fields.d[k]).field == k
-//@ loop 1 invariant forall k string :: visited(k) && old(opts.configValueHandling) != cfgReplaceValue && old(has(to.fields.d, k)) ==> copyOf(to.fields.d[k], mvSpec(old(to.fields.d[k]), dict[k])) && fresh(to.fields.d[k]) && cctx(to.fields.d[k]).parent == subval(to) && cctx(to.fields.d[k]).field == k
+//@ loop 1 invariant forall k string :: visited(k) ==> has(from.fields.d, k)
+//@ loop 1 invariant forall k string :: visited(k) && (old(opts.configValueHandling) == cfgReplaceValue || !old(has(to.fields.d, k))) ==> copyOf(to.fields.d[k], mvSpec(nilv(), from.fields.d[k])) && fresh(to.fields.d[k]) && cctx(to.fields.d[k]).parent == subval(to) && cctx(to.fields.d[k]).field == k
+//@ loop 1 invariant forall k string :: visited(k) && old(opts.configValueHandling) != cfgReplaceValue && old(has(to.fields.d, k)) ==> copyOf(to.fields.d[k], mvSpec(old(to.fields.d[k]), from.fields.d[k])) && fresh(to.fields.d[k]) && cctx(to.fields.d[k]).parent == subval(to) && cctx(to.fields.d[k]).field == k
 //@ loop 1 invariant forall k string :: !visited(k) && old(opts.configValueHandling) != cfgReplaceValue && old(has(to.fields.d, k)) ==> to.fields.d[k] == old(to.fields.d[k])
 
 // ---------------------------------------------------------------- C16: per-field merge policies (trie view of the field-handling tree)
@@ -960,11 +984,32 @@ package ucfg
 //@ ensures [absent] cfgEval(elem) != nil && !has(cfgEval(elem).fields.d, n.name) ==> err == nil && r == nil
 
 //@ func (namedField).SetValue :: n, opts, elem, v -> err
-//@ props C12
+//@ props C12 C10 C15
+//@ tagged-only C10 C15
 //@ requires elem != nil && v != nil
 //@ requires typeof(elem) == cfgSub ==> elem.(cfgSub).c != nil && elem.(cfgSub).c.fields != nil
+//@ requires typeof(v) == cfgSub ==> v.(cfgSub).c != nil
+//@ requires typeof(elem) == cfgSub ==> objref(v) != objref(elem) && objref(v) != objref(elem.(cfgSub).c.fields)
+//@ modifies *
 //@ ensures [noobj] typeof(elem) != cfgSub ==> err != nil
 //@ ensures [ok] typeof(elem) == cfgSub ==> err == nil
+//@ ensures [stored @C12] typeof(elem) == cfgSub ==> has(elem.(cfgSub).c.fields.d, n.name) && elem.(cfgSub).c.fields.d[n.name] == v
+//@ ensures [slot_ctx @C15] err == nil ==> ctxof(v).parent == elem && ctxof(v).field == n.name
+//@ ensures [source_kept @C10] typeof(elem) == cfgSub && typeof(v) == cfgSub ==> v.(cfgSub).c.ctx == old(v.(cfgSub).c.ctx)
+
+//@ func (*context).empty
+//@ props C15 C10
+//@ requires c != nil
+//@ pure
+//@ ensures [spec] result == (c.parent == nil)
+
+//@ func (cfgSub).SetContext :: c, ctx
+//@ props C15 C10 C11
+//@ requires c.c != nil
+//@ modifies c.c.ctx
+//@ ensures [attach] old(c.c.ctx.parent) == nil ==> c.c.ctx == ctx
+//@ ensures [attached_untouched] old(c.c.ctx.parent) != nil ==> c.c.ctx == old(c.c.ctx)
+//@ ensures [rest] c.c.fields == old(c.c.fields) && c.c.metadata == old(c.c.metadata)
 
 //@ func (namedField).Remove :: n, opts, elem -> removed, err
 //@ props C12
@@ -1221,7 +1266,9 @@ package ucfg
 
 // ---------------------------------------------------------------- C08: the active set is scoped (restored on every exit)
 
+// every element of a container is evaluated under a set of its own: the level handed to it is empty
 //@ iface value.reify :: self, opts -> r, err
+//@ requires opts != nil && opts.activeFields != nil && forall k string :: !has(opts.activeFields.fields, k)
 //@ modifies tree(opts)
 //@ ensures opts.activeFields == old(opts.activeFields)
 
@@ -1380,3 +1427,54 @@ package ucfg
 //@ loop 2 invariant forall j int :: 0 <= j && j < len(fields) ==> fields[j] != nil
 //@ loop 2 invariant val != nil && node != nil
 //@ loop 2 decreases len(fields)
+
+// ---------------------------------------------------------------- helpers found wanting by seeded changes (batch 3)
+
+// Env: the configurations are kept in the order given; resolveRef consults them from the last one.
+//@ func Env$1
+//@ props C02
+//@ requires o != nil
+//@ modifies o.env
+//@ ensures [appended] len(o.env) == len(old(o.env)) + 1 && o.env[len(old(o.env))] == deref(e)
+//@ ensures [prefix] forall j int :: 0 <= j && j < len(old(o.env)) ==> o.env[j] == old(o.env[j])
+
+// kind classes used by the dispatch of typed unpacking (reflect.Kind numbering: Int..Int64 = 2..6,
+// Uint..Uint64 = 7..11, Float32/64 = 13/14)
+//@ func isInt
+//@ props C03
+//@ pure
+//@ ensures [spec] result == (2 <= k && k <= 6)
+
+//@ func isUint
+//@ props C03
+//@ pure
+//@ ensures [spec] result == (7 <= k && k <= 11)
+
+//@ func isFloat
+//@ props C03
+//@ pure
+//@ ensures [spec] result == (k == 13 || k == 14)
+
+// a sub-config counts as its list (possibly empty) when it has one, else as one entry
+//@ func (cfgSub).Len :: c, _ -> n, err
+//@ props C12
+//@ requires c.c != nil && c.c.fields != nil
+//@ pure
+//@ ensures [list] c.c.fields.a != nil ==> err == nil && n == len(c.c.fields.a)
+//@ ensures [single] c.c.fields.a == nil ==> err == nil && n == 1
+
+//@ iface value.canCache :: self -> r
+//@ pure
+//@ ensures r == cacheable(self)
+//@ ghost func cacheable(v value) bool
+
+// the per-call cache: a hit returns the stored pair; only values that say they can be cached are stored
+// (never a failed or container-valued evaluation - that is what lets an absorbed cycle be retried)
+//@ func (valueCache).cachedValue :: cache, id, f -> v, err
+//@ props C08
+//@ requires cache != nil
+//@ modifies *
+//@ ensures [hit_err] old(has(cache, id)) && old(cache[id].err) != nil ==> v == nil && err == old(cache[id].err)
+//@ ensures [hit_val] old(has(cache, id)) && old(cache[id].err) == nil ==> v == old(cache[id].value) && err == nil
+//@ ensures [store_only_cacheable] !old(has(cache, id)) && !(v != nil && cacheable(v)) ==> !has(cache, id)
+//@ ghost func idStr(id cacheID) string
